@@ -14,7 +14,9 @@ EXPLAIN = ('interchain token (structural, necessary clauses): (R1) every balance
            'approve refuses exactly when amount > 0 and expiration < sequence; (R6) each mutating entry emits exactly one '
            'standard token event naming the entry\'s true parties before every success exit; set_admin names the owner read '
            'BEFORE the owner slot is overwritten.')
-NOT_DECIDED = 'the sum-of-balances = supply invariant over histories; TTL behaviour of temporary storage.'
+NOT_DECIDED = ('the history invariant (sum of balances = minted - burned) is decided only through its inductive step: R2 + the read-modify-write '
+               'freshness rule show that every successful transfer debits and credits the same amount (also when from == to), mint only credits, burn only '
+               'debits, and R3 that nothing else writes a balance; the induction itself and TTL behaviour of temporary storage are not mechanised.')
 ASSUME = ['T1', 'T2', 'T3', 'T6']
 CN = 'interchain_token'
 
